@@ -6,6 +6,7 @@ import (
 	"encoding/hex"
 	"fmt"
 	"reflect"
+	"sort"
 	"time"
 
 	"verif/bridge/chunk"
@@ -108,6 +109,29 @@ func run(w *ev.W) {
 			}
 			enc := tbin.Encode(env.P.ToWire(f, t, held))
 			one(enc)
+			if vi == 0 {
+				// the baseline with an unknown field holding a deeply nested value (what an
+				// evolved writer may send): both paths must still agree
+				for _, depth := range []int{70, 300} {
+					for _, shape := range []string{"struct", "list", "map"} {
+						deep := tbin.Value{T: tbin.I32, I: 1}
+						for i := 0; i < depth; i++ {
+							switch shape {
+							case "struct":
+								deep = tbin.Value{T: tbin.Struct, Fields: []tbin.Field{{ID: 1, V: deep}}}
+							case "list":
+								deep = tbin.Value{T: tbin.List, VT: deep.T, Items: []tbin.Value{deep}}
+							case "map":
+								deep = tbin.Value{T: tbin.Map, KT: tbin.I8, VT: deep.T, Items: []tbin.Value{{T: tbin.I8, I: 1}, deep}}
+							}
+						}
+						wv := env.P.ToWire(f, t, held)
+						wv.Fields = append(append([]tbin.Field{}, wv.Fields...), tbin.Field{ID: 32000, V: deep})
+						w.Count("deep_unknown_field_inputs", 1)
+						input(env, cell, ent, f, t, tbin.Encode(wv))
+					}
+				}
+			}
 			if len(enc) > 96 {
 				continue
 			}
@@ -200,6 +224,55 @@ func serializers(env *cellutil.Env, cell cells.Cell, ent reg.Entry, f *schema.Fi
 			nv.Elem().Set(rv.Elem())
 			nv.Elem().Field(i).Set(reflect.Zero(sf.Type()))
 			compare(nv, key+" with "+ent.Type.Field(i).Name+"=nil")
+		}
+		// a nil element inside a container (first list/set element, the value under the
+		// smallest map key, the Value of the first key/value pair of an unhashable-key map)
+		for i := 0; i < ent.Type.NumField(); i++ {
+			sf := rv.Elem().Field(i)
+			if !sf.CanSet() {
+				continue
+			}
+			nillable := func(t reflect.Type) bool {
+				return t.Kind() == reflect.Ptr || t.Kind() == reflect.Slice || t.Kind() == reflect.Map
+			}
+			var repl reflect.Value
+			switch sf.Kind() {
+			case reflect.Slice:
+				if sf.Len() == 0 {
+					continue
+				}
+				et := sf.Type().Elem()
+				switch {
+				case nillable(et) && !(et.Kind() == reflect.Slice && et.Elem().Kind() == reflect.Uint8 && false):
+					repl = reflect.MakeSlice(sf.Type(), sf.Len(), sf.Len())
+					reflect.Copy(repl, sf)
+					repl.Index(0).Set(reflect.Zero(et))
+				case et.Kind() == reflect.Struct && et.NumField() == 2 && et.Field(1).Name == "Value" && nillable(et.Field(1).Type):
+					repl = reflect.MakeSlice(sf.Type(), sf.Len(), sf.Len())
+					reflect.Copy(repl, sf)
+					repl.Index(0).Field(1).Set(reflect.Zero(et.Field(1).Type))
+				default:
+					continue
+				}
+			case reflect.Map:
+				if sf.Len() == 0 || !nillable(sf.Type().Elem()) {
+					continue
+				}
+				keys := sf.MapKeys()
+				sort.Slice(keys, func(a, b int) bool { return fmt.Sprint(keys[a].Interface()) < fmt.Sprint(keys[b].Interface()) })
+				repl = reflect.MakeMapWithSize(sf.Type(), sf.Len())
+				for _, k := range keys {
+					repl.SetMapIndex(k, sf.MapIndex(k))
+				}
+				repl.SetMapIndex(keys[0], reflect.Zero(sf.Type().Elem()))
+			default:
+				continue
+			}
+			nv := reflect.New(ent.Type)
+			nv.Elem().Set(rv.Elem())
+			nv.Elem().Field(i).Set(repl)
+			w.Count("nil_element_variants", 1)
+			compare(nv, key+" with a nil element inside "+ent.Type.Field(i).Name)
 		}
 	}
 }
